@@ -196,7 +196,7 @@ impl RCase {
         for (k, v) in &self.plan {
             let s: Vec<String> = v
                 .iter()
-                .map(|e| format!("{}{}", match e.oc { Oc::Pass => "P", Oc::PanicString => "!S", Oc::PanicStr => "!s", Oc::PanicCustom => "!C", Oc::PanicI32 => "!i" }, if e.gates > 0 { format!("g{}", e.gates) } else { String::new() }))
+                .map(|e| format!("{}{}", match e.oc { Oc::Pass => "P", Oc::PanicString => "!S", Oc::PanicStr => "!s", Oc::PanicCustom => "!C", Oc::PanicI32 => "!i", Oc::PanicEager => "!E" }, if e.gates > 0 { format!("g{}", e.gates) } else { String::new() }))
                 .collect();
             if v.iter().any(|e| !e.oc.is_pass() || e.gates > 0) {
                 plan.insert(k.clone(), s.join(","));
@@ -265,7 +265,7 @@ fn pct(t: &mut Tape, p: u32) -> bool {
 fn gen_plan_entries(t: &mut Tape, p_fail: u32, max_gates: usize, n: usize) -> Vec<PlanEntry> {
     (0..n)
         .map(|_| {
-            let oc = if pct(t, p_fail) { [Oc::PanicString, Oc::PanicStr, Oc::PanicCustom, Oc::PanicI32][t.pick(4)] } else { Oc::Pass };
+            let oc = if pct(t, p_fail) { [Oc::PanicString, Oc::PanicStr, Oc::PanicCustom, Oc::PanicI32, Oc::PanicEager][t.pick(5)] } else { Oc::Pass };
             let gates = t.pick(max_gates + 1) as u8;
             PlanEntry { oc, gates }
         })
@@ -565,6 +565,8 @@ pub fn gen_case(t: &mut Tape, p: &Profile) -> RCase {
     }
 
     if focus {
+        let increasing = t.chance(1, 2);
+        let mut serial_idx = 0usize;
         for sc in &mut scenarios {
             let key = format!("after:{}", sc.name);
             let v = plan.entry(key).or_default();
@@ -572,7 +574,10 @@ pub fn gen_case(t: &mut Tape, p: &Profile) -> RCase {
                 v.push(PlanEntry { oc: Oc::Pass, gates: 0 });
             }
             if sc.serial {
-                let d = Duration::from_millis(t.range(1, 4) as u64);
+                // serial scenarios run in order: with increasing delays the retry queued last (the
+                // head of the queue) has the latest deadline
+                let d = if increasing { Duration::from_millis((1 + 2 * serial_idx).min(5) as u64) } else { Duration::from_millis(t.range(1, 4) as u64) };
+                serial_idx += 1;
                 let n = t.range(1, 2);
                 closure.insert(sc.name.clone(), (n, Some(d)));
                 sc.retry = Some((n, Some(d)));
